@@ -7,8 +7,8 @@ SPEC = dict(
     coq_dirs=["lib", "C34/Model.v", "C34/Proofs.v", "C34/Refine.v", "C18/Model.v", "C18/MapSpec.v", "C18/Proofs.v", "C35"],
     level="proof",
     technique="Coq theorems over a Gallina model of fixed_str_to_bytes / bytes_to_fixed_str (with a full well-formed-UTF-8 validator) + differential correspondence on the real helpers at widths 1/4/32/64, on arbitrary stored bytes, on Store key / RoleMetadata / Market / TokenConfig / Executor names and on the RoleStore enable-grant-has-disable-enable chain + round-trip oracle on the Rust outputs",
-    text="A name is accepted and reads back unchanged exactly when it is strictly shorter than the field and contains no NUL (c35_roundtrip_iff, all widths, all UTF-8 strings); the code accepts more, and the two excess classes are characterised exactly (exact fill -> InvalidFormat on read; interior NUL -> reads back the prefix before the first NUL) with concrete witnesses replayed on the real code at every site; outside the two classes the property is proved literally, and a role is usable iff its name is readable.",
-    level_note="The unchanged tree VIOLATES the property text in exactly two classes (known/C35.json: ExactFillNameUnreadable, InteriorNulNameTruncated), reported on every run; known_b pins each class to the exact observed misbehaviour so that any other failure is a new violation. Proposed minimal fix (not applied): in fixed_str_to_bytes reject `bytes.len() >= MAX_LEN` and names containing a 0 byte. TokenConfigExt::update and Executor::try_init are pub(crate): their single name line (fixed_str_to_bytes(name)?) is executed through the same store helper and read back with the real TokenConfig::name() / Executor::role_name(). The SDK copy crates/sdk/src/utils/fixed_str.rs is not linked by the harness.",
+    text="Every accepted name reads back unchanged (c35_accepted_roundtrip: all field widths, all UTF-8 strings), creation accepts exactly the names that are strictly shorter than the field and contain no NUL (c35_accepted_iff_readable), names that exactly fill the field or contain NUL are rejected at creation with the modelled error, and a freshly created role can be granted, is held, and can be disabled (c35_created_role_works through the C18 abstract machine).",
+    level_note="History: on the original tree this check reported two violation classes (exact-fill names and names with interior NUL were accepted but unreadable); they were repaired in /repo by fix 71aae69 (known/C35.json, status fixed) and the model, theorems and oracle now follow the repaired code — nothing is tolerated: known_b is constantly 0 and the pre-fix outputs are negative cases. TokenConfigExt::update and Executor::try_init are pub(crate): their single name line (fixed_str_to_bytes(name)?) is executed through the same store helper and read back with the real TokenConfig::name() / Executor::role_name(). The SDK copy crates/sdk/src/utils/fixed_str.rs (client-side PDA seeds) is unchanged by the fix and is not linked by the harness.",
     design_ref="DESIGN.md section 6 (C35) and section 7",
     explanation="Strings of 1-4 byte characters with lengths 0, 1, N-2, N-1, N, N+1, 2N and NUL at the start / inside / at the end; arbitrary 32-byte arrays with planted well- and ill-formed UTF-8 sequences.",
 )
